@@ -135,6 +135,20 @@ def conc_scripts(c, lib, count, sid0):
     return out
 
 
+def burst_scripts(c, count, sid0):
+    """contention on the shard table: Pre < limit groups exist, then Burst producers with pairwise distinct new groups call
+    Consume at the same instant (spin barrier in the driver) with Pre + Burst > limit: whatever the schedule, at most
+    limit groups may ever be accepted / emitted and the others must get the error (inputs only)."""
+    rng = c.rng
+    out = []
+    for i in range(count):
+        limit = rng.choice([1, 2, 3])
+        out.append(dict(sid=sid0 + i, signal=SIGNALS[i % 3], mode="burst",
+                        conf=dict(size=rng.choice([0, 1]), max=0, timeout_ms=0, keyed=True, limit=limit), pendmax=0,
+                        pre=rng.randrange(0, limit), burst=rng.choice([8, 10, 12, 16]), slack_ms=2000))
+    return out
+
+
 def explain(ctxd, got, want):
     """which fields of the context differ (for the message only)"""
     g, w = ctxd.get(got, got), ctxd.get(want, want)
@@ -258,7 +272,8 @@ def run(c):
     total_viol = 0
     drift = 0
     nontrivial = 0
-    for label, part, par in (("seq", scripts, 8), ("conc", conc, 12)):
+    burst = burst_scripts(c, 200 if q else 1500, len(scripts) + len(conc) + 1)
+    for label, part, par in (("seq", scripts, 8), ("conc", conc, 12), ("burst", burst, 2)):
         chunk = 6000
         for off in range(0, len(part), chunk):
             sub = part[off:off + chunk]
@@ -282,7 +297,7 @@ def run(c):
                               trace=open(tr).read().splitlines()[:8]))
     if drift > 3:
         c.model_drift("%d sequential scripts in total diverged from the specified batches with the monitor satisfied" % drift)
-    c.extra["scripts"] = dict(sequential=len(scripts), concurrent=len(conc), rejected_by_monitor=total_viol)
+    c.extra["scripts"] = dict(sequential=len(scripts), concurrent=len(conc), burst=len(burst), rejected_by_monitor=total_viol)
     c.assumptions += ["time stamps are taken by the recorder (ms); the timeliness clause is checked with 2 s slack",
                       "downstream = recording sink; a batch the sink rejects counts as emitted (statement: 'provided downstream accepts it')",
                       "item context = digest of resource/scope/schema URLs/metric descriptor/item content as found in the payload"]
